@@ -47,3 +47,15 @@ package actionlint
 //@ func (*ObjectType).IsStrict
 //@   props C05
 //@   ensures result == (ty.Mapped == nil)
+
+// expression types are never nil: the values of every property table, the element type of every array
+// type and the type computed for a matrix row (C01: a nil type is dereferenced by the next check; C06:
+// "unknown" is AnyType, not nil)
+//@ nonnil_elems map[string]ExprType
+//@ nonnil ArrayType.Elem
+//@ func (*RuleExpression).checkMatrixRow
+//@   props C01 C06
+//@   ensures result != nil
+//@ func (*RuleExpression).checkRawYAMLValue
+//@   loop "range v.Elems[1:]":
+//@     invariant [C01] elem != nil
